@@ -6,7 +6,9 @@
    twice"); and (theorems C03_rt_...) the laws of the runtime operations themselves (Rt.split_equal,
    Rt.split_nonuniform, Rt.merge1, Rt.flatten1, Rt.unflatten1, Rt.tswizzle) for tries of ANY size: occupancy
    splits are undone by mergeRanks, flattenRanks by unflattenRanks, swizzleRanks by any permutation relocates every payload to the permuted path and is undone
-   by the inverse permutation.  NOT a theorem yet (hence _partial): the statement about whole emitted programs;
+   by the inverse permutation; and (theorems C03_nest_..., at the end) the occupancy split in the loop-nest abstraction:
+   for any loop order the nest over the dynamically partitioned tensors contributes exactly the Einsum's values, every
+   original point represented once.  NOT a theorem yet (hence _partial): the statement about whole emitted programs;
    that half is kernel-evaluated execution of every emitted program (tools/props/c03.py). *)
 From Coq Require Import ZArith List Sorted Permutation.
 Require Import TV.Model.Rt TV.Proofs.OccLaws TV.Proofs.RtLaws.
@@ -109,3 +111,188 @@ Proof. exact split_nonuniform_merge1_depth. Qed.
 Theorem C03_rt_flatten1_unflatten1_depth : forall d t, at_depth d (fiber_ok wf2) t ->
   exists t', tmap_depth d flatten1 t = Some t' /\ tmap_depth d unflatten1 t' = Some t.
 Proof. exact flatten1_unflatten1_depth. Qed.
+
+(* ---- the loop nest over occupancy-partitioned tensors (Model/Nest.v, Model/NestOcc.v; Proofs/NestOccProofs.v) ----
+   The occupancy split as a transformation of the nest STATE: when the nest reaches rank r, the current fiber of every
+   tensor whose next rank is r is cut (NestOcc.bounds_split = splitNonUniform) at the chunk starts of the leader's current
+   fiber (NestOcc.chunk_starts n = the upper coordinates of splitEqual(n)), and r becomes (r1, r0).  For ANY loop order L'
+   over r1, r0 and the other ranks that is well-formed for the transformed term (other ranks anywhere between r1 and r0),
+   ANY tries: the nest contributes, at every point whose upper coordinate is the partition of its lower coordinate,
+   exactly the value of the term at the original point (r := lower coordinate), and nothing elsewhere; every original
+   point with a non-zero value is represented by exactly one such point ("no pair of elements that must meet is separated
+   or met twice").  NOT covered (hence the theorems do not carry the whole property): the correspondence of emitted HiFiber text to
+   run_then_split (that half is the kernel-evaluated execution in tools/props/c03.py), flattening, and the merge of the
+   partitioned OUTPUT tensor. *)
+Require TV.Model.Nest TV.Model.NestPart TV.Model.NestOcc TV.Proofs.NestOccProofs.
+
+(* splitNonUniform(bs) of one fiber, denotationally: for increasing boundaries, (r1, r0) is a point of the cut fiber iff
+   r1 is the partition of r0, and then it holds what the fiber holds at r0 *)
+Theorem C03_nest_bounds_split_den : forall bs l rs p r r1 r0,
+  StronglySorted Z.lt bs -> ~ In r rs ->
+  Nest.den (r1 :: r0 :: rs) (Nest.Node (NestOcc.bounds_split bs l)) p =
+  if NestOcc.occ_consistent bs r1 r0 p then Nest.den (r :: rs) (Nest.Node l) (NestPart.collapse r r0 p) else 0.
+Proof. exact NestOccProofs.den_bounds_split. Qed.
+
+(* the leader's boundaries: increasing; the first is the leader's first coordinate; every coordinate of the leader has a
+   partition; cutting the leader at its own boundaries is splitEqual(n) - the chunks of Rt.chunks, the function the
+   interpreter runs (consecutive, n elements each but the last, none empty: C03_split_equal_*_partial above) *)
+Theorem C03_nest_leader_bounds : forall n l, (0 < n)%nat -> StronglySorted Z.lt (Nest.keys l) ->
+  StronglySorted Z.lt (NestOcc.chunk_starts n l) /\
+  (forall ct l', l = ct :: l' -> exists bs', NestOcc.chunk_starts n l = fst ct :: bs') /\
+  (forall c, In c (Nest.keys l) -> NestOcc.part_of (NestOcc.chunk_starts n l) c <> None) /\
+  NestOcc.bounds_split (NestOcc.chunk_starts n l) l =
+    map (fun ch => (NestOcc.head_key ch, Nest.Node ch)) (chunks (S (length l)) n l) /\
+  NestOcc.part_of = part_of.
+Proof.
+  intros n l Hn Hs. split; [apply NestOccProofs.chunk_starts_sorted; exact Hs|].
+  split; [intros ct l' ->; eexists; apply NestOccProofs.chunk_starts_head|].
+  split; [intros c Hc; apply NestOccProofs.chunk_starts_covers; assumption|].
+  split; [apply NestOccProofs.leader_bounds_split_chunks; assumption|exact NestOccProofs.part_of_OccLaws].
+Qed.
+
+(* the followers' view: a sum of products split at ANY increasing boundaries *)
+Theorem C03_nest_bounds_sound_partial : forall r r1 r0 bs tms L',
+  StronglySorted Z.lt bs ->
+  (forall tm, In tm tms -> NestOcc.term_ok r tm) ->
+  (forall tm, In tm tms -> existsb (Nest.participates r) tm = true) ->
+  Nest.wf L' (map (NestOcc.split_term_at r r1 r0 bs) tms) ->
+  forall p, Nest.sum_at p (Nest.run L' (map (NestOcc.split_term_at r r1 r0 bs) tms)) =
+            if NestOcc.occ_consistent bs r1 r0 p then Nest.body_den tms (NestPart.collapse r r0 p) else 0.
+Proof. exact NestOccProofs.bounds_nest_sound. Qed.
+
+(* uniform_occupancy(leader.n) of one product term, leader = the tensor at position k *)
+Theorem C03_nest_occupancy_sound_partial : forall r r1 r0 n k tm L',
+  NestOcc.term_ok r tm -> NestOcc.leader_ok r k tm ->
+  Nest.wf L' [NestOcc.occ_split r r1 r0 n k tm] ->
+  forall p, Nest.sum_at p (Nest.run L' [NestOcc.occ_split r r1 r0 n k tm]) =
+            if NestOcc.occ_consistent (NestOcc.leader_bounds n k tm) r1 r0 p
+            then Nest.term_den tm (NestPart.collapse r r0 p) else 0.
+Proof. exact NestOccProofs.occ_nest_sound. Qed.
+
+(* no pair separated, none met twice *)
+Theorem C03_nest_occupancy_represented_once : forall r r1 r0 n k tm L',
+  NestOcc.term_ok r tm -> NestOcc.leader_ok r k tm -> r1 <> r0 ->
+  (forall t, In t tm -> ~ In r1 (Nest.rem t) /\ ~ In r0 (Nest.rem t)) ->
+  Nest.wf L' [NestOcc.occ_split r r1 r0 n k tm] ->
+  forall q, Nest.term_den tm q <> 0 ->
+  exists u, NestOcc.part_of (NestOcc.leader_bounds n k tm) (q r) = Some u /\
+    forall u', Nest.sum_at (Nest.upd (Nest.upd q r0 (q r)) r1 u') (Nest.run L' [NestOcc.occ_split r r1 r0 n k tm]) =
+               if Z.eqb u' u then Nest.term_den tm q else 0.
+Proof. exact NestOccProofs.occ_represented_once. Qed.
+
+(* the split at its dynamic position: outer levels Lo first, then the split of the reached state, then the inner levels;
+   the boundaries are those of the leader's fiber in the state reached at the outer coordinates of p *)
+Theorem C03_nest_occupancy_dynamic_sound_partial : forall Lo r r1 r0 n k Li tm,
+  ~ In r Lo -> NestOcc.wf_outer Lo (NestOcc.occ_state_ok r r1 r0 n k Li) [tm] ->
+  forall p, Nest.sum_at p (NestOcc.run_then_split Lo (NestOcc.occ_split r r1 r0 n k) Li [tm]) =
+            if NestOcc.occ_consistent (NestOcc.leader_bounds n k (NestOcc.reach_term Lo p tm)) r1 r0 p
+            then Nest.term_den tm (NestPart.collapse r r0 p) else 0.
+Proof. exact NestOccProofs.occ_dyn_sound. Qed.
+
+Theorem C03_nest_occupancy_dynamic_represented_once : forall Lo r r1 r0 n k Li tm,
+  ~ In r Lo -> ~ In r1 Lo -> ~ In r0 Lo -> r1 <> r0 ->
+  (forall t, In t tm -> ~ In r1 (Nest.rem t) /\ ~ In r0 (Nest.rem t)) ->
+  NestOcc.wf_outer Lo (NestOcc.occ_state_ok r r1 r0 n k Li) [tm] ->
+  forall q, Nest.term_den tm q <> 0 ->
+  exists u, NestOcc.part_of (NestOcc.leader_bounds n k (NestOcc.reach_term Lo q tm)) (q r) = Some u /\
+    forall u', Nest.sum_at (Nest.upd (Nest.upd q r0 (q r)) r1 u')
+                           (NestOcc.run_then_split Lo (NestOcc.occ_split r r1 r0 n k) Li [tm]) =
+               if Z.eqb u' u then Nest.term_den tm q else 0.
+Proof. exact NestOccProofs.occ_dyn_represented_once. Qed.
+
+(* certified validation: the static check of the rank structure + a hereditarily sorted leader give the theorem for ALL
+   tries of that rank structure *)
+Theorem C03_nest_occupancy_validator_sound_partial : forall Lo r r1 r0 n k Li tm,
+  NestOcc.occ_dyn_okb Lo r r1 r0 k Li (map Nest.rem tm) = true ->
+  (forall ld, nth_error tm k = Some ld -> NestOcc.tsortedb (Nest.cur ld) = true) ->
+  forall p, Nest.sum_at p (NestOcc.run_then_split Lo (NestOcc.occ_split r r1 r0 n k) Li [tm]) =
+            if NestOcc.occ_consistent (NestOcc.leader_bounds n k (NestOcc.reach_term Lo p tm)) r1 r0 p
+            then Nest.term_den tm (NestPart.collapse r r0 p) else 0.
+Proof. exact NestOccProofs.occ_dyn_okb_sound. Qed.
+
+(* at a full point at most one upper coordinate contributes ... *)
+Theorem C03_nest_occupancy_dynamic_upper_unique : forall Lo r r1 r0 n k Li tm,
+  ~ In r Lo -> ~ In r1 Lo -> r1 <> r0 -> NestOcc.wf_outer Lo (NestOcc.occ_state_ok r r1 r0 n k Li) [tm] ->
+  forall p u, Nest.sum_at (Nest.upd p r1 u) (NestOcc.run_then_split Lo (NestOcc.occ_split r r1 r0 n k) Li [tm]) <> 0 ->
+  NestOcc.part_of (NestOcc.leader_bounds n k (NestOcc.reach_term Lo p tm)) (p r0) = Some u.
+Proof. exact NestOccProofs.occ_dyn_upper_unique. Qed.
+
+(* ... and the contributions whose key agrees with p outside r1 add up to the value of the term at the collapsed point
+   (to 0 when the lower coordinate lies below the leader's first element, where the term is 0 anyway) *)
+Theorem C03_nest_occupancy_dynamic_sum_over_upper : forall Lo r r1 r0 n k Li tm,
+  ~ In r Lo -> ~ In r1 Lo -> r1 <> r0 -> In r1 Li -> NoDup (Lo ++ Li) ->
+  (forall t, In t tm -> ~ In r1 (Nest.rem t)) ->
+  NestOcc.wf_outer Lo (NestOcc.occ_state_ok r r1 r0 n k Li) [tm] ->
+  forall p, NestOcc.sum_except r1 p (NestOcc.run_then_split Lo (NestOcc.occ_split r r1 r0 n k) Li [tm]) =
+            match NestOcc.part_of (NestOcc.leader_bounds n k (NestOcc.reach_term Lo p tm)) (p r0) with
+            | Some _ => Nest.term_den tm (NestPart.collapse r r0 p)
+            | None => 0
+            end.
+Proof. exact NestOccProofs.occ_dyn_sum_over_upper. Qed.
+
+(* two-level stacks, by composition.  K: [uniform_shape(s), uniform_occupancy(leader.n)]: r is shape-split into (r2, rx)
+   (NestPart.part_tstate, C02), then beneath the outer levels Lo (r2 among them) rx is occupancy-split into (r1, r0) *)
+Theorem C03_nest_occupancy_beneath_shape_partial : forall Lo r r2 rx s r1 r0 n k Li (tm : Nest.term),
+  (forall t, In t tm -> NoDup (Nest.rem t)) -> existsb (NestPart.holds r) tm = true ->
+  let tm1 : Nest.term := map (NestPart.part_tstate r r2 rx s) tm in
+  ~ In rx Lo -> NestOcc.wf_outer Lo (NestOcc.occ_state_ok rx r1 r0 n k Li) [tm1] ->
+  forall p, Nest.sum_at p (NestOcc.run_then_split Lo (NestOcc.occ_split rx r1 r0 n k) Li [tm1]) =
+            if andb (NestOcc.occ_consistent (NestOcc.leader_bounds n k (NestOcc.reach_term Lo p tm1)) r1 r0 p)
+                    (NestPart.consistent r2 rx s (NestPart.collapse rx r0 p))
+            then Nest.term_den tm (NestPart.collapse r rx (NestPart.collapse rx r0 p)) else 0.
+Proof. exact NestOccProofs.occ_beneath_shape_sound. Qed.
+
+(* K: [uniform_occupancy(l2.n2), uniform_occupancy(l1.n1)]: after Lo1, r is occupancy-split into (r2, rx); after the further
+   levels Lo2 (r2 among them), rx is occupancy-split into (r1, r0); then Li *)
+Theorem C03_nest_occupancy_beneath_occupancy_partial : forall Lo1 r r2 rx n2 k2 Lo2 r1 r0 n1 k1 Li tm,
+  ~ In r Lo1 -> ~ In rx Lo1 -> ~ In rx Lo2 ->
+  NestOcc.wf_outer Lo1 (NestOcc.occ2_state_ok r r2 rx n2 k2 Lo2 r1 r0 n1 k1 Li) [tm] ->
+  forall p,
+  let tmA := NestOcc.reach_term Lo1 p tm in
+  let tmB := NestOcc.occ_split r r2 rx n2 k2 tmA in
+  Nest.sum_at p (NestOcc.run_split_split Lo1 (NestOcc.occ_split r r2 rx n2 k2) Lo2 (NestOcc.occ_split rx r1 r0 n1 k1) Li [tm]) =
+  if andb (NestOcc.occ_consistent (NestOcc.leader_bounds n1 k1 (NestOcc.reach_term Lo2 p tmB)) r1 r0 p)
+          (NestOcc.occ_consistent (NestOcc.leader_bounds n2 k2 tmA) r2 rx (NestPart.collapse rx r0 p))
+  then Nest.term_den tm (NestPart.collapse r rx (NestPart.collapse rx r0 p)) else 0.
+Proof. exact NestOccProofs.occ_beneath_occ_sound. Qed.
+
+Theorem C03_nest_occupancy2_validator_sound_partial : forall Lo1 r r2 rx n2 k2 Lo2 r1 r0 n1 k1 Li tm,
+  NestOcc.occ2_dyn_okb Lo1 r r2 rx k2 Lo2 r1 r0 k1 Li (map Nest.rem tm) = true ->
+  (forall ld, nth_error tm k2 = Some ld -> NestOcc.tsortedb (Nest.cur ld) = true) ->
+  (forall ld, nth_error tm k1 = Some ld -> NestOcc.tsortedb (Nest.cur ld) = true) ->
+  forall p,
+  let tmA := NestOcc.reach_term Lo1 p tm in
+  let tmB := NestOcc.occ_split r r2 rx n2 k2 tmA in
+  Nest.sum_at p (NestOcc.run_split_split Lo1 (NestOcc.occ_split r r2 rx n2 k2) Lo2 (NestOcc.occ_split rx r1 r0 n1 k1) Li [tm]) =
+  if andb (NestOcc.occ_consistent (NestOcc.leader_bounds n1 k1 (NestOcc.reach_term Lo2 p tmB)) r1 r0 p)
+          (NestOcc.occ_consistent (NestOcc.leader_bounds n2 k2 tmA) r2 rx (NestPart.collapse rx r0 p))
+  then Nest.term_den tm (NestPart.collapse r rx (NestPart.collapse rx r0 p)) else 0.
+Proof. exact NestOccProofs.occ2_dyn_okb_sound. Qed.
+
+(* K: [uniform_occupancy(leader.n), uniform_shape(s)]: after Lo, r is occupancy-split into (r2, rx) and rx is shape-split by
+   step s into (r1, r0) *)
+Theorem C03_nest_shape_beneath_occupancy_partial : forall Lo r r2 rx n k r1 r0 s Li tm,
+  ~ In r Lo -> ~ In rx Lo -> r2 <> rx ->
+  NestOcc.wf_outer Lo (NestOcc.occ_shape_state_ok r r2 rx n k r1 r0 s Li) [tm] ->
+  forall p, Nest.sum_at p (NestOcc.run_then_split Lo (NestOcc.occ_then_shape r r2 rx n k r1 r0 s) Li [tm]) =
+            if andb (NestPart.consistent r1 r0 s p)
+                    (NestOcc.occ_consistent (NestOcc.leader_bounds n k (NestOcc.reach_term Lo p tm)) r2 rx (NestPart.collapse rx r0 p))
+            then Nest.term_den tm (NestPart.collapse r rx (NestPart.collapse rx r0 p)) else 0.
+Proof. exact NestOccProofs.shape_beneath_occ_sound. Qed.
+
+(* the operations of the nest model ARE the operations of the modelled runtime (Rt.split_nonuniform, Rt.split_equal - the
+   functions the interpreter runs) under the embedding NestOcc.to_rt of Nest tries into Rt tries; in particular, for the
+   leader, splitNonUniform at the boundaries of splitEqual(n) is splitEqual(n) *)
+Theorem C03_nest_bounds_split_is_rt_split_nonuniform : forall bs l,
+  split_nonuniform (map VInt bs) (NestOcc.to_rt (Nest.Node l)) = Some (NestOcc.to_rt (Nest.Node (NestOcc.bounds_split bs l))).
+Proof. exact NestOccProofs.bounds_split_is_split_nonuniform. Qed.
+
+Theorem C03_nest_equal_split_is_rt_split_equal : forall n l, (0 < n)%nat ->
+  split_equal (Z.of_nat n) (NestOcc.to_rt (Nest.Node l)) =
+  Some (NestOcc.to_rt (Nest.Node (NestOcc.equal_split (S (length l)) n l))).
+Proof. exact NestOccProofs.equal_split_is_split_equal. Qed.
+
+Theorem C03_nest_leader_split_nonuniform_is_split_equal : forall n l, (0 < n)%nat -> StronglySorted Z.lt (Nest.keys l) ->
+  split_nonuniform (map VInt (NestOcc.chunk_starts n l)) (NestOcc.to_rt (Nest.Node l)) =
+  split_equal (Z.of_nat n) (NestOcc.to_rt (Nest.Node l)).
+Proof. exact NestOccProofs.leader_split_nonuniform_is_split_equal. Qed.
